@@ -444,7 +444,7 @@ Fixpoint dec_params (ext : bool) (fuel : nat) (d : list Z) : res (list cap) :=
           | Notify a b => Notify a b
           | Ok l1 => match dec_params ext k rest with Ok l2 => Ok (l1 ++ l2) | Notify a b => Notify a b end
           end
-        else n20
+        else Notify 2 UNKNOWN_PARAM_SUBCODE   (* probed by T6: 0 in the unrepaired tree, 4 (RFC 4271 6.2) once repaired *)
       end
     end
   end.
